@@ -62,7 +62,8 @@ def v2_strategy():
     entry = st.fixed_dictionaries(
         {"country_code": st.sampled_from(["DK", "DE"]), "bic": st.sampled_from(["", "DABADKKK", None]),
          "name": st.sampled_from(["A", "B"]), "codes": st.lists(st.sampled_from(["0001", "0002", "", "9999"]), max_size=4)},
-        optional={"primary": st.booleans(), "short_name": st.just("s")})
+        optional={"primary": st.booleans(), "short_name": st.just("s"), "bank_code": st.sampled_from(["7777", ""]),
+                  "extra": st.integers(0, 2)})
     return st.lists(entry, max_size=5).map(lambda es: {"expand_from": "codes", "expand_into": "bank_code", "entries": es})
 
 
@@ -157,12 +158,19 @@ def gen_bank_files(rng):
                 e["bank_codes"] = [rng.choice(BANK_CC[cc]) for _ in range(rng.randrange(0, 3))]
                 if rng.random() < 0.5:
                     e["primary"] = rng.random() < 0.5
+                if rng.random() < 0.3:
+                    e["bank_code"] = rng.choice(BANK_CC[cc])      # a left-over field named like the expansion target
             else:
                 e["bank_code"] = rng.choice(BANK_CC[cc])
                 e["primary"] = rng.random() < 0.5
             entries.append(e)
         name = f"{li}banks" + (".v2.json" if v2 else ".json")
         files[name] = {"expand_from": "bank_codes", "expand_into": "bank_code", "entries": entries} if v2 else entries
+        if rng.random() < 0.35 and entries and not v2:
+            # a second file whose name extends this one's stem: 'xbanks-more.json' sorts BEFORE 'xbanks.json' ('-' < '.'),
+            # 'xbanks_more.json' after it - file-name order, not stem order
+            sep = rng.choice("-_")
+            files[f"{li}banks{sep}more.json"] = [dict(entries[0], name="MORE", primary=not entries[0].get("primary", False))]
     return files
 
 
@@ -259,9 +267,16 @@ _BUNDLED = {}
 
 def bundled():
     if not _BUNDLED:
+        import os
+        from ..oracles.core import iban_registry_dir
         t = load_table()
         o = IbanOracle(t)
-        _BUNDLED.update(table=t, oracle=o, gen=gens.Gen(o))
+        files = {}
+        for name in os.listdir(iban_registry_dir()):
+            if name.endswith(".json"):
+                with open(os.path.join(iban_registry_dir(), name), encoding="utf-8") as fp:
+                    files[name] = json.load(fp)
+        _BUNDLED.update(table=t, oracle=o, gen=gens.Gen(o), files=files)
     return _BUNDLED
 
 
@@ -271,6 +286,18 @@ def gen_copy_config(rng):
     # names sort before ("a..."), between ("h...": generated < h < overwrite) and after ("z...") the bundled files
     prefixes = rng.sample(["aoverlay", "hoverlay", "poverlay", "zoverlay", "zzlast"], n)
     iban_files = {f"{p}.json": gen_iban_overlay(rng, b) for p in prefixes}
+    if rng.random() < 0.5:
+        # names that extend the stem of another file (also of a bundled one): 'overwrite-local.json' < 'overwrite.json'
+        stem = rng.choice(["overwrite", "generated", prefixes[0]])
+        sep = rng.choice("-_")
+        doc = gen_iban_overlay(rng, b)
+        # make it conflict with the file whose stem it extends, so that the order is observable
+        other = iban_files.get(f"{stem}.json") or _BUNDLED["files"].get(f"{stem}.json", {})
+        for cc in list(other)[:40]:
+            if isinstance(other[cc], dict) and "in_sepa_zone" in other[cc]:
+                doc.setdefault(cc, {})["in_sepa_zone"] = not other[cc]["in_sepa_zone"]
+                break
+        iban_files[f"{stem}{sep}local.json"] = doc
     return iban_files, gen_bank_files(rng)
 
 
@@ -342,8 +369,9 @@ def run(ctx):
                        "registry.get('bank') == reference list (order-sensitive); an IBAN valid under the effective table is "
                        "accepted and its components are read at the overlaid positions; one valid only under the bundled table is "
                        "rejected; lookups find banks of added files; countries no overlay names are identical to the bundled ones.")
-    ctx.assumptions = ["file names are lower-case with distinct leading letters so that code-point, case-insensitive and natural "
-                       "order coincide (the README only says 'alpha-numeric sorting order')",
+    ctx.assumptions = ["file names are lower-case ASCII; 'file-name order' is read as code-point order of the complete file name "
+                       "(so 'x-more.json' < 'x.json' < 'x_more.json'); no names are generated on which case-insensitive or natural "
+                       "order would differ from it",
                        "overlays are internally consistent (C17's predicate); key order of merged dicts is not compared"]
     ov = overlay_strategy()
     strat = st.one_of(st.lists(ov, min_size=2, max_size=3).map(lambda l: ("merge", l)),
